@@ -1,5 +1,6 @@
 import Driver.Util
 import OxiModel.Filters
+import OxiModel.FilterImage
 open OxiModel
 namespace Driver
 
@@ -35,6 +36,24 @@ def handleFilters (args : List String) : Option String :=
       | some (d', out) => "ok " ++ toHex d' ++ " " ++ toHex out
       | none => "panic"
     | _, _, _, _, _ => "bad-args"
+  | "filter_image" :: how :: rest => some <|
+    match parseImg rest with
+    | none => "bad-args"
+    | some img =>
+      match img.scanLines false with
+      | none => "panic"
+      | some lines =>
+        if how.startsWith "c:" then
+          match ((how.drop 2).toString.splitOn ",").mapM String.toNat? with
+          | some fts => (match filterLinesChoice img.bppBytes lines fts none [] [] with
+                         | some out => "ok " ++ toHex out
+                         | none => "illegal-choice")
+          | none => "bad-args"
+        else match how.toNat? with
+          | some s => (match filterLinesStd s img.bppBytes lines none [] [] with
+                       | some out => "ok " ++ toHex out
+                       | none => "panic")
+          | none => "bad-args"
   | ["spec_recon", ft, bpp, d, p] => some <|
     match natArg ft, natArg bpp, ofHex d, ofHex p with
     | some ft, some bpp, some d, some p =>
